@@ -1,0 +1,19 @@
+//go:build !verif
+
+// Package verifhook holds the hooks the deterministic-simulation harness (build tag
+// "verif") uses to interpose on hint calls and on the solution handed to the backends.
+// Without the tag the hooks are compiled out.
+package verifhook
+
+import "github.com/consensys/gnark/constraint/solver"
+
+// Enabled reports whether the hooks are compiled in.
+const Enabled = false
+
+// WrapHint, when set, wraps every hint function right before the solver (or the test
+// engine) calls it.
+var WrapHint func(id solver.HintID, f solver.Hint) solver.Hint
+
+// PostSolve, when set, is handed the constraint system and a pointer to the solution right
+// before Solve returns it.
+var PostSolve func(cs any, solution any)
